@@ -16,6 +16,11 @@ use redis_sim::replication::lattice::{LamportClock, ReplicaId};
 use redis_sim::replication::state::{ReplicatedValue, ReplicationDelta};
 use redis_sim::streaming::{spawn_wal_actor, FsyncPolicy, WalConfig, WalRotator};
 use serde_json::json;
+use crate::model::cluster::repl_config;
+use crate::model::wire::{parse_cmd, R};
+use crate::simkit::clock::SimClock;
+use redis_sim::production::ReplicatedShardedState;
+use redis_sim::replication::ConsistencyLevel;
 use std::cell::RefCell;
 use std::collections::{BTreeMap, BTreeSet};
 use std::rc::Rc;
@@ -70,7 +75,7 @@ impl Property for C09 {
         "per generated workload (1-8 concurrent writers, swarm-drawn rotation threshold and group-commit limits) a fault-free pilot run, then one run per (I/O call index, applicable fault kind) plus sampled double faults; inside each run every durable image that ever existed (crash instant) is recovered and compared with the writes acknowledged before it was superseded. Non-trivial = at least one crash image taken after >=1 acknowledged write while unsynced bytes existed or a fault had fired; distinct = fingerprint of (workload, config, fired faults, realised poll order)"
     }
     fn components_real(&self) -> Vec<&'static str> {
-        vec!["streaming::wal_actor::WalActor (spawn_wal_actor, run_always_mode, group commit)", "streaming::wal::{WalRotator,WalWriter,WalReader,WalEntry}", "WalActorHandle::write_durable", "tokio mpsc/oneshot/timeout on a paused clock"]
+        vec!["streaming::wal_actor::WalActor (spawn_wal_actor, run_always_mode, group commit)", "production::ReplicatedShardedState::execute with set_wal_handle (every fifth workload, fault-free: a client reply implies the delta is durable)", "streaming::wal::{WalRotator,WalWriter,WalReader,WalEntry}", "WalActorHandle::write_durable", "tokio mpsc/oneshot/timeout on a paused clock"]
     }
     fn components_stubbed(&self) -> Vec<&'static str> {
         vec!["WalStore -> SimWalStore (in-memory files, fsync = advance durable prefix of that one file, faults by call index)", "writers are harness futures, not connections"]
@@ -78,12 +83,14 @@ impl Property for C09 {
     fn assumptions(&self) -> Vec<&'static str> {
         vec!["crash model of the property: bytes not covered by a successful fsync of their file are lost; file creation/deletion is durable at once", "a failed fsync makes nothing durable"]
     }
-    fn required_probes(&self) -> Vec<&'static str> { vec!["batch_straddled_rotation", "crash_image_with_unsynced_bytes"] }
+    fn required_probes(&self) -> Vec<&'static str> { vec!["batch_straddled_rotation", "crash_image_with_unsynced_bytes", "glue_reply_after_durable_write"] }
     fn runs(&self, tier: Tier) -> u64 { match tier { Tier::Quick => 5000, Tier::Thorough => 100000 } }
 
     fn derive(&self, tape: &[u64], rep: &RunReport, tier: Tier) -> Vec<Vec<u64>> {
         // Only pilots that were fault-free are expanded.
         if tape.len() < HEADER_CELLS || tape[0] % 3 != 0 { return vec![]; }
+        // glue-mode pilots are judged fault-free only (the glue documents best effort under WAL faults)
+        if rep.sample.as_ref().map(|s| s["glue"].as_bool().unwrap_or(false)).unwrap_or(false) { return vec![]; }
         let mut out = Vec::new();
         let kinds_for = |k: &str| -> Vec<u64> {
             match k { "append" => vec![0, 1, 2, 3, 5, 7, 8], "sync" => vec![4], "create" => vec![6], _ => vec![] }
@@ -156,8 +163,12 @@ impl Property for C09 {
             plans.push(v);
         }
         let total_writes = next_id;
+        // mode B: the production glue (ReplicatedShardedState::execute with a WAL handle) issues the
+        // durable writes; a reply to the client stands for "write_durable returned". Fault-free only.
+        let glue = src.below(5) == 0;
+        if glue { plan.clear(); }
         let trace_on = ctx.trace;
-        rep.log(trace_on, || format!("config: writers={} writes={} max_file_size={} entry_size={} group_commit_max_entries={} wait_us={} faults={:?}", nwriters, total_writes, max_file_size, entry_size, gmax, gwait, plan));
+        rep.log(trace_on, || format!("config: glue={} writers={} writes={} max_file_size={} entry_size={} group_commit_max_entries={} wait_us={} faults={:?}", glue, nwriters, total_writes, max_file_size, entry_size, gmax, gwait, plan));
 
         let seq = Seq::default();
         let store = SimWalStore::new(seq.clone());
@@ -180,7 +191,36 @@ impl Property for C09 {
                 Err(_) => return (true, 0, 0),
             };
             let mut sched = Sched::new();
+            let node = if glue {
+                let clock = SimClock::new(1_700_000_000_000);
+                let mut st = ReplicatedShardedState::with_time_source(repl_config(1, ConsistencyLevel::Eventual), clock);
+                st.set_wal_handle(handle.clone());
+                Some(Rc::new(st))
+            } else { None };
             for (w, plan) in plans.iter().enumerate() {
+                if let Some(node) = node.clone() {
+                    let done = done.clone();
+                    let seq = seq.clone();
+                    let plan = plan.clone();
+                    sched.add(format!("client{}", w), async move {
+                        for (id, ts) in plan {
+                            let k = format!("w{}", id).into_bytes();
+                            let v = format!("v{}", id).into_bytes();
+                            let args: Vec<Vec<u8>> = match ts % 5 {
+                                0 => vec![b"INCR".to_vec(), k],
+                                1 => vec![b"HSET".to_vec(), k, b"f".to_vec(), v],
+                                2 => vec![b"APPEND".to_vec(), k, v],
+                                3 => vec![b"SET".to_vec(), k, v, b"PX".to_vec(), b"100000".to_vec()],
+                                _ => vec![b"SET".to_vec(), k, v],
+                            };
+                            let r = match parse_cmd(&args) { Ok(c) => R::from_resp(&node.execute(c).await), Err(e) => R::Err(e) };
+                            let s = seq.next();
+                            let ok = !matches!(r, R::Err(_));
+                            done.borrow_mut().push(Done { id, ok, seq: s, err: if ok { String::new() } else { format!("{:?}", r) } });
+                        }
+                    });
+                    continue;
+                }
                 let h = handle.clone();
                 let done = done.clone();
                 let seq = seq.clone();
@@ -226,6 +266,7 @@ impl Property for C09 {
             });
             if straddle { rep.probe("batch_straddled_rotation"); }
         }
+        if glue && done.iter().any(|x| x.ok) { rep.probe("glue_reply_after_durable_write"); }
         if fired.iter().any(|(_, f)| matches!(f, WalFault::AppendError | WalFault::AppendPartial(_) | WalFault::AppendTornIo(_) | WalFault::DiskFull)) { rep.probe("append_failed"); }
 
         // ---- liveness (fault-free runs only): every call resolves Ok
@@ -293,7 +334,7 @@ impl Property for C09 {
         }
         rep.evals = evals.max(1);
         rep.nontrivial = nontrivial;
-        let mut fp = fnv(0, &[nwriters as u8, size_opt as u8, gmax as u8, (gwait % 251) as u8, pad as u8]);
+        let mut fp = fnv(glue as u64, &[nwriters as u8, size_opt as u8, gmax as u8, (gwait % 251) as u8, pad as u8]);
         for p in &plans { for (id, ts) in p { fp = fnv(fp, &[*id as u8, *ts as u8]); } fp = fnv(fp, &[0xff]); }
         for (c, f) in &fired { fp = fnv(fp, &c.to_le_bytes()); fp = fnv(fp, f.name().as_bytes()); }
         fp = fnv(fp, &order_fp.to_le_bytes());
@@ -301,6 +342,7 @@ impl Property for C09 {
         rep.sample = Some(json!({
             "writers": plans.iter().map(|p| p.iter().map(|(id, ts)| format!("w{}@{}", id, ts)).collect::<Vec<_>>()).collect::<Vec<_>>(),
             "max_file_size": max_file_size, "group_commit_max_entries": gmax, "group_commit_max_wait_us": gwait,
+            "glue": glue,
             "faults_planned": plan.iter().map(|(c, f)| format!("call{}:{}", c, f.name())).collect::<Vec<_>>(),
             "faults_fired": fired.iter().map(|(c, f)| format!("call{}:{}", c, f.name())).collect::<Vec<_>>(),
             "io_calls": io_calls,
